@@ -67,7 +67,10 @@ class C20(C.ProgramDiff):
                     style = 'explicit'      # one variadic registration per name (a second would replace the first)
                 yields = [bool(src.n(2)) for _ in range(1 + src.n(3))]
                 replaced.append({'name': k[0], 'arity': k[1], 'rows': rows, 'style': style, 'yields': yields,
-                                 'raise_at': (1 + src.n(4)) if src.rare(1, 6) else 0, 'raise_class': src.n(len(BOOMS))})
+                                 'raise_at': (1 + src.n(4)) if src.rare(1, 6) else 0, 'raise_class': src.n(len(BOOMS)),
+                                 # the function builds its terms with atoms of its own (another engine instance, kept
+                                 # in a closure) instead of asking the running engine for them
+                                 'own_atoms': src.n(4) == 3})
         dyn = []
         if replaced and src.n(3) == 2:
             r = src.pick(replaced)
@@ -274,6 +277,8 @@ class C20(C.ProgramDiff):
         raise_at = r['raise_at']
         name = r['name']
 
+        builder = impl.YP() if r.get('own_atoms') else yp
+
         def solutions(args):
             seen = {}
             bad = [a for a in args if not isinstance(a, (IUnifiable, int, str))]
@@ -284,7 +289,7 @@ class C20(C.ProgramDiff):
                 if len(row) != len(args):
                     continue
                 vmap = {}
-                vals = [impl.to_engine(yp, x, vmap) for x in row]
+                vals = [impl.to_engine(builder, x, vmap) for x in row]
                 for _ in unify_arrays(list(args), vals):
                     counter['n'] += 1
                     if raise_at and counter['n'] == raise_at:
